@@ -65,6 +65,7 @@ func c08(c *core.Check) {
 	c.Assume = []string{"apache/thrift's TStandardClient.Call and TProcessor contract", "args/result structs are rendered by the StructLike templates (C02)"}
 	c08synth(c)
 	c08baseScope(c)
+	c08successNameFree(c)
 	st := tmplEngine(c)
 	if st == nil {
 		return
